@@ -30,6 +30,7 @@ class Expect(object):
     self.soft_error = False      # an ERROR record whose terminal result was repeated away
     self.dut_id = None
     self.unspecified = []        # reasons why the docs do not decide this program (=> not strict)
+    self.groups = {}             # group id -> facts about its entry (used as *preconditions* by C03)
 
 
 class _Subtest(object):
@@ -159,8 +160,13 @@ class Model(object):
     if in_td:
       self.x.unspecified.append('group nested in a teardown')
     skip_td = st is not None and st.failed
+    info = {'subtest_failed_at_entry': bool(skip_td), 'in_td': bool(in_td), 'in_subtest': st is not None,
+            'subtest_failed_after_setup': bool(skip_td), 'setup_ret': None}
+    self.x.groups[n['id']] = info
     if n['s']:
       r = self._seq(n['s'], st, in_td)
+      info['setup_ret'] = r
+      info['subtest_failed_after_setup'] = bool(st is not None and st.failed)
       if r != CONT:
         return r
       skip_td = skip_td or (st is not None and st.failed)
